@@ -276,6 +276,16 @@ def physical_gate(facts, rep, w, D):
                     continue
                 return False
             return False
+        # `path.strip_prefix('/').unwrap_or(path)`: by definition the argument without its leading '/' exactly when it has one
+        sp_form = arg[0] == "call" and arg[1] == "Option::unwrap_or" and len(arg[2]) == 2 and is_own_arg(norm(arg[2][1])) and \
+            norm(arg[2][0])[0] == "call" and norm(arg[2][0])[1] == "str::strip_prefix" and is_own_arg(norm(norm(arg[2][0])[2][0])) and \
+            norm(arg[2][0])[2][1] in (("char", "/"), ("str", "/"))
+        if sp_form:
+            n += 3
+            rep.ob("R07.2", g.id, "joined string is the path argument itself (at most without its leading '/')", True, "strip_prefix('/').unwrap_or(path)", t.line)
+            rep.ob("R07.2", g.id, "leading '/' is stripped somewhere", True, "strip_prefix", g.span)
+            rep.ob("R07.2", g.id, "joined string: stripped exactly when the argument starts with '/'", True, "strip_prefix('/').unwrap_or(path)", t.line)
+            continue
         pure = all(is_own_arg(x) or (x[0] == "call" and x[1] == "Index::index" and len(x[2]) == 2 and is_own_arg(norm(x[2][0])) and
                                      x[2][1][0] == "agg" and x[2][1][1].endswith("RangeFrom") and dict(x[2][1][3]).get("start") == ("int", 1))
                    for x in alts_)
